@@ -39,13 +39,20 @@ def pack_contract(E, args, kwargs):
     o = make_wrapper_subclass(E, cls, tuple(t.shape), strides=None, dtype=E.ext_modules["torch"].entries["uint8"], device=t.device)
     o.fields["_bits"] = bits
     o.fields["_data"] = payload
-    o.fields["_ghost_codes"] = STensor("uint8", list(t.shape), t.snap(), device=t.device)
+    ghost = STensor("uint8", list(t.shape), t.snap(), device=t.device)
+    o.fields["_ghost_codes"] = ghost
+    # the abstract view is a function of the payload (unpack o pack == id, C04): it travels with payload-preserving moves
+    payload.attrs["ghost_codes"] = ghost
     return o
 
 
 def unpack_contract(E, args, kwargs):
     p = args[0]
     g = p.fields.get("_ghost_codes")
+    if g is None and isinstance(p.fields.get("_data"), STensor):
+        g = p.fields["_data"].attrs.get("ghost_codes")
+        if g is not None:
+            p.fields["_ghost_codes"] = g
     if g is None:
         from qvc.sym import Unsupported
 
